@@ -9,7 +9,7 @@ int a_real_ldl(a_uint n, a_real *A)
         a_real *const Ac = A + (a_size)n * c;
         for (i = 0; i < c; ++i)
         {
-            Ac[c] -= Ac[i] * Ac[i] * A[(a_size)n * i + i];
+            Ac[c] -= Ac[i] * (Ac[i] * A[(a_size)n * i + i]);
         }
         if (a_real_abs(Ac[c]) < A_REAL_MIN) { return A_FAILURE; }
         for (r = c + 1; r < n; ++r)
@@ -17,7 +17,7 @@ int a_real_ldl(a_uint n, a_real *A)
             a_real *const Ar = A + (a_size)n * r;
             for (i = 0; i < c; ++i)
             {
-                Ar[c] -= Ar[i] * Ac[i] * A[(a_size)n * i + i];
+                Ar[c] -= Ar[i] * (Ac[i] * A[(a_size)n * i + i]);
             }
             Ar[c] /= Ac[c];
         }
